@@ -493,6 +493,7 @@ fn check_quat(ctx: &Ctx, b: &mut Batch, q: [f64; 4]) {
 
 pub fn run(tier: Tier, seed: u64) -> i32 {
     let ctx = Ctx::new("C12", tier, seed, "exploration");
+    let thorough = tier == Tier::Thorough;
     let vals = bound_values();
     let pairs: Vec<(f64, f64)> = vals.iter().flat_map(|a| vals.iter().map(move |b| (*a, *b))).collect();
     let small = small_bound_values();
@@ -515,9 +516,12 @@ pub fn run(tier: Tier, seed: u64) -> i32 {
                     check_r(ctx, b, dim, Some(vec![*a, *c]));
                 }
             }
-            for a in &p2 {
-                for c in &p2 {
-                    for d in &p2 {
+            // three bounds: reduced lattice; the thorough tier uses the full 400-pair lattice where
+            // the length matches the dimension (64 million constructor calls)
+            let l3: &Vec<(f64, f64)> = if dim == 3 && thorough { &p1 } else { &p2 };
+            for a in l3 {
+                for c in l3 {
+                    for d in l3 {
                         check_r(ctx, b, dim, Some(vec![*a, *c, *d]));
                     }
                 }
@@ -564,9 +568,16 @@ pub fn run(tier: Tier, seed: u64) -> i32 {
                 check_se(ctx, b, se3, 1.0, Some(vec![(-1.0, 1.0), (-2.0, 2.0), *p]));
                 check_se(ctx, b, se3, 1.0, Some(vec![*p, (-2.0, 2.0), (-1.0, 1.0)]));
             }
-            for a in &p2 {
-                for c in &p2 {
-                    for d in &p2 {
+            // thorough: a 12-value lattice (144 pairs, 3 million triples) instead of 8 values
+            let l3: Vec<(f64, f64)> = if thorough {
+                let v = [f64::NEG_INFINITY, -1e308, -4.0, -PI, -1.0, 0.0, 1.0, PI, 4.0, 1e308, f64::INFINITY, f64::NAN];
+                v.iter().flat_map(|a| v.iter().map(move |b| (*a, *b))).collect()
+            } else {
+                p2.clone()
+            };
+            for a in &l3 {
+                for c in &l3 {
+                    for d in &l3 {
                         check_se(ctx, b, se3, 0.5, Some(vec![*a, *c, *d]));
                     }
                 }
